@@ -94,7 +94,7 @@ class Ctx:
         cwd = cwd or self.specdir()
         cfg = cfg or (module + ".cfg")
         meta = tempfile.mkdtemp(prefix="meta-", dir=self.tmp)
-        jopts = "-Xss64m"
+        jopts = "-Xss64m -Djava.io.tmpdir=" + meta   # TLC unpacks its module jar into java.io.tmpdir: keep that under the run directory
         if heap:
             jopts += " -Xmx%s" % heap
         if deque:
@@ -159,6 +159,11 @@ class Ctx:
             rp = v["replay"] or self.save_replay("violation-%d.json" % (new.index(v)), v)
             print("VIOLATION property=%s replay=%s clause=%s %s" % (self.prop, rp, v["clause"], v["what"]))
         self.write_evidence(len(new))
+        if not new:
+            c = self.cov
+            print("HELD property=%s tier=%s seed=%d: %d model states, %d implementation traces judged, %d divergences, %.0fs"
+                  % (self.prop, self.tier, self.seed, c.get("states", 0), c.get("traces_validated_against_impl", 0),
+                     c.get("divergences", 0) if isinstance(c.get("divergences", 0), int) else 0, time.time() - self.t0))
         sys.stdout.flush()
         return 1 if new else 0
 
